@@ -47,6 +47,11 @@ class Env:
 
     def cleanup(self):
         import shutil
+        for st in self.streams:
+            try:
+                st.close()
+            except Exception:
+                pass
         shutil.rmtree(self.scratch, ignore_errors=True)
 
 
@@ -74,6 +79,10 @@ def make_source(env, data, src):
                          faults=src.get('faults'), url=src.get('url'))
         env.streams.append(st)
         return st, st.core
+    if ch in ('openfile', 'openfile_text'):
+        fp = open(env.path_for(data), 'rb') if ch == 'openfile' else open(env.path_for(data), 'r', encoding='utf-8')
+        env.streams.append(fp)
+        return fp, None
     if ch == 'path':
         return env.path_for(data), None
     if ch == 'pathobj':
